@@ -1,3 +1,4 @@
+mod dict;
 mod gen;
 mod gen2;
 mod genfibex;
@@ -13,6 +14,19 @@ mod sweep;
 mod wire;
 
 use std::io::{BufRead, BufWriter, Write};
+
+static PANICKED: std::sync::atomic::AtomicBool = std::sync::atomic::AtomicBool::new(false);
+
+/// which cases are run a second time on a fresh thread: all but the ones that are expensive by construction
+/// (readers allocate the crate's 10 MiB buffer: one case in four; FIBEX loads already run on threads of their
+/// own; the gigabyte-sized junk/rest cases)
+fn fresh_thread_rerun(op: u32, line: &str) -> bool {
+    match op {
+        50 | 51 | 34 | 35 => false,
+        40 | 41 | 33 | 32 => line.len() % 4 == 0,
+        _ => line.len() < 200_000,
+    }
+}
 
 struct NullLogger;
 impl log::Log for NullLogger {
@@ -67,8 +81,8 @@ fn main() {
             if args.len() != 5 {
                 usage();
             }
-            // panics are outcomes here, not diagnostics
-            std::panic::set_hook(Box::new(|_| {}));
+            // panics are outcomes here, not diagnostics; the hook only notes that one happened (any thread)
+            std::panic::set_hook(Box::new(|_| PANICKED.store(true, std::sync::atomic::Ordering::SeqCst)));
             let prop = args[2].clone();
             // The crate's trace!/debug!/warn! sites evaluate their arguments only when the `log` crate's global level
             // admits them.  A null logger is installed and the level is chosen PER CASE from a hash of the case line
@@ -89,13 +103,38 @@ fn main() {
                 };
                 let op: u32 = op.parse().expect("op");
                 log::set_max_level(level_for(&line));
-                let out = match std::panic::catch_unwind(|| {
+                PANICKED.store(false, std::sync::atomic::Ordering::SeqCst);
+                let mut out = match std::panic::catch_unwind(|| {
                     let toks = wire::parse_toks(rest);
                     ops::run_case(&prop, op, &toks)
                 }) {
                     Ok(o) => o,
                     Err(_) => ops::Outcome { result: vec![wire::Tok::N(0xbad)], oracle: vec![] },
                 };
+                // The same case once more on a FRESH thread: every operation is a function of its input, so what
+                // earlier cases left behind on this thread (thread-locals, memo tables) must not show.  The main-thread
+                // result above is what is compared with the model; a differing fresh-thread result is reported.
+                if fresh_thread_rerun(op, &line) {
+                    let prop2 = prop.clone();
+                    let rest2 = rest.to_string();
+                    let h = std::thread::Builder::new().stack_size(256 << 20).spawn(move || {
+                        std::panic::catch_unwind(|| {
+                            let toks = wire::parse_toks(&rest2);
+                            ops::run_case(&prop2, op, &toks).result
+                        })
+                        .unwrap_or_else(|_| vec![wire::Tok::N(0xbad)])
+                    });
+                    if let Ok(h) = h {
+                        if let Ok(r2) = h.join() {
+                            if r2 != out.result {
+                                let mut t = wire::print_toks(&r2);
+                                t.truncate(300);
+                                out.oracle.push(("history_independent".into(), format!("on a fresh thread the same call gives {}", t)));
+                            }
+                        }
+                    }
+                }
+                let panicked = PANICKED.load(std::sync::atomic::Ordering::SeqCst);
                 let oracle = if out.oracle.is_empty() {
                     "-".to_string()
                 } else {
@@ -105,8 +144,11 @@ fn main() {
                         .collect::<Vec<_>>()
                         .join(" ;; ")
                 };
-                writeln!(f, "{}\t{}", wire::print_toks(&out.result), oracle).unwrap();
+                writeln!(f, "{}\t{}\t{}", wire::print_toks(&out.result), oracle, if panicked { "P" } else { "-" }).unwrap();
             }
+        }
+        "dict" => {
+            println!("{}", dict::describe());
         }
         "ti-sweep" => {
             if args.len() != 6 {
